@@ -292,7 +292,7 @@ Definition simple_native (st : state) (name : text) (args : list val) (d : N) : 
       match getv n, list_to_string doc with
       | VSym x, Some dtext =>
         let nm := sym_name x in
-        if is_global_defined st nm then Some (st, RSig (vsym "already-defined"))
+        if is_global_defined st nm then Some (st, RSig (make_error "already-defined" name [("symbol", n)]))
         else
           let value := match get_meta n with
                        | Some md => VMeta (Meta (m_name md) (m_kind md) (m_line md) (m_col md) dtext) (getv v)
